@@ -23,7 +23,7 @@ RULE = ("seeded swarm biased to curve-number / germination / top-soil depths off
         "season's crop parameters are compared around every day and every clock update. An attempted write that raises on a "
         "read-only array is classified as a violation too. Non-trivial run: at least one rainy day with antecedent-moisture "
         "adjustment active, or a season start (the only allowed change) was crossed; distinct = distinct configuration signatures")
-PROFILE = {"soil_switch_p": 0.8, "dz_p": 0.5, "calendar_crop_p": 0.4, "n_seasons": [1, 2, 2, 3], "gw": 0.3, "field_p": 0.5,
+PROFILE = {"soil_switch_p": 0.8, "dz_p": 0.5, "calendar_crop_p": 0.4, "n_seasons": [1, 2, 2, 3], "gw": 0.35, "gw_depths": [0.1, 0.15, 0.2, 0.25, 0.3, 0.45, 0.75, 1.0, 1.5, 2.5, 6.0], "field_p": 0.5,
            "irr_methods": [0, 1, 2, 3, 4, 5, 5], "events_per_year": 3.0, "event_kinds": ["storm", "wet_spell", "drought", "dry_then_wet", "dry_then_wet", "heat_wave", "cold_snap", "et0_spike"], "co2_p": 0.4, "off_season_p": 0.5,
            "crops": None}
 
